@@ -1761,7 +1761,7 @@ def c14(run, an=None):
             out.append(V("C14", "oversize-inbound-did-not-end-connection", "an inbound packet was rejected but the handle is still live", step=st.idx))
     # "if a mandatory acknowledgement would not fit the connection is closed instead": an acknowledgement
     # or PUBREL queued on an earlier connection meets a smaller Maximum Packet Size; the step that would
-    # send it reports PacketTooLarge and the handle must not stay live (known finding F14b: it does)
+    # send it reports PacketTooLarge and the handle must not stay live (the defect F14b, repaired in the crate)
     reported = False
     for st in run.steps:
         if reported or st.state is None or st.state.live != "1":
@@ -1771,7 +1771,7 @@ def c14(run, an=None):
             unsent_rel = [r for r in st.state.rel if r[-1] != "s"]
             if st.state.mps is not None and st.state.mps < 6 and (unsent_ctl or unsent_rel):
                 what = "acknowledgement" if unsent_ctl else "PUBREL"
-                out.append(V("C14", "ack-does-not-fit-connection-not-closed", f"a queued {what} exceeds the Maximum Packet Size of this connection; the call reports PacketTooLarge and the handle stays live: {st.state.raw[:140]}", step=st.idx, finding="F14b"))
+                out.append(V("C14", "ack-does-not-fit-connection-not-closed", f"a queued {what} exceeds the Maximum Packet Size of this connection; the call reports PacketTooLarge and the handle stays live: {st.state.raw[:140]}", step=st.idx, ))
                 reported = True
     prev = None
     for st in run.steps:
